@@ -100,6 +100,19 @@ pub struct LayoutInfo {
     pub final_newline: bool,
     pub lone_cr: usize,
     pub pragma_value_respaced: usize,
+    /// comments written inside a pragma value (for this lexer they are part of the value token)
+    pub pragma_comments: usize,
+}
+
+/// Comments that may stand inside a pragma directive: no `;` (it would end the directive), but
+/// carets and versions that must not count.
+const PRAGMA_COMMENTS: &[&str] = &[
+    "/* ^0.7.0 */", "/* was 0.7.6 */", "/* until 0.9.0 */", "/* >=0.4.0 <0.6.0 */", "/* ^ */", "/**/", "// ^0.5.0\n", "// 1.2.3 \n", "/* \u{e9}\u{4e16} ^1.0.0 */", "/* 0.8.4\n0.7.0 */",
+];
+
+/// A pragma value without its comments, white space normalised.
+pub fn normalise_pragma_value(s: &str) -> String {
+    crate::refmodel::detect::pragma_value_without_comments(s).split_whitespace().collect::<Vec<_>>().join(" ")
 }
 
 /// A random layout driven by the tape.  Returns the text and per-token byte offsets.
@@ -164,15 +177,42 @@ pub fn random_layout(toks: &[Tok], t: &mut Tape) -> (String, Vec<usize>, LayoutI
     // layout all the same: each run of blanks inside it becomes a tape-chosen run of white space
     let mut texts: Vec<String> = toks.iter().map(|tk| tk.text.clone()).collect();
     for (i, tk) in toks.iter().enumerate() {
-        let is_value = tk.in_pragma && i >= 2 && toks[i - 2].text == "pragma" && tk.text.contains(' ');
-        if is_value {
+        let is_value = tk.in_pragma && i >= 2 && toks[i - 2].text == "pragma";
+        if is_value && (tk.text.contains(' ') || style == 2 || t.chance(40)) {
             let parts: Vec<&str> = tk.text.split(' ').filter(|p| !p.is_empty()).collect();
+            let commented = style == 2 || t.chance(60);
             let mut v = String::new();
+            if commented && t.chance(110) {
+                v.push_str(*t.pick(PRAGMA_COMMENTS));
+                v.push(' ');
+                info.pragma_comments += 1;
+            }
             for (k, part) in parts.iter().enumerate() {
                 if k > 0 {
                     v.push_str(*t.pick(&[" ", " ", "\t", "\n", "  ", "\r\n", " \t ", "\n\n"]));
+                    if commented && t.chance(90) {
+                        v.push_str(*t.pick(PRAGMA_COMMENTS));
+                        v.push(' ');
+                        info.pragma_comments += 1;
+                    }
                 }
-                v.push_str(part);
+                // a comment may also stand between an operator and its version (`^ /* min */ 0.8.4`)
+                let op_len = part.chars().take_while(|c| "^~=<>".contains(*c)).count();
+                if commented && op_len > 0 && op_len < part.len() && t.chance(70) {
+                    v.push_str(&part[..op_len]);
+                    v.push(' ');
+                    v.push_str(*t.pick(PRAGMA_COMMENTS));
+                    v.push(' ');
+                    v.push_str(&part[op_len..]);
+                    info.pragma_comments += 1;
+                } else {
+                    v.push_str(part);
+                }
+            }
+            if commented && t.chance(110) {
+                v.push(' ');
+                v.push_str(*t.pick(PRAGMA_COMMENTS));
+                info.pragma_comments += 1;
             }
             if v != tk.text {
                 info.pragma_value_respaced += 1;
@@ -209,8 +249,9 @@ pub fn random_layout(toks: &[Tok], t: &mut Tape) -> (String, Vec<usize>, LayoutI
 }
 
 pub fn same_tokens(text: &str, toks: &[Tok]) -> bool {
-    // pragma values are compared modulo the white space between their constraints
-    let norm = |s: &str| s.split_whitespace().collect::<Vec<_>>().join(" ");
+    // pragma values are compared modulo the white space and the comments between their constraints
+    // (a blank between an operator and its version does not count either)
+    let norm = |s: &str| normalise_pragma_value(s).replace("^ ", "^").replace("~ ", "~").replace("= ", "=").replace("> ", ">").replace("< ", "<");
     match tokenize(text) {
         Some(t2) => t2.len() == toks.len() && t2.iter().zip(toks).all(|(a, b)| a.text == b.text || (a.in_pragma && b.in_pragma && norm(&a.text) == norm(&b.text))),
         None => false,
